@@ -32,13 +32,13 @@ CHECKS = {
 CHECKS['C13'] = {
     'level': 'exploration',
     'jobs': [
-        {'engine': 'polyseq', 'variant': 'san', 'profile': 'alias', 'quick': 1200, 'thorough': 40000, 'avg_case_s': 0.15},
+        {'engine': 'polyseq', 'variant': 'san', 'profile': 'alias', 'quick': 1200, 'thorough': 20000, 'avg_case_s': 0.15},
         {'engine': 'gridseq', 'variant': 'san', 'profile': 'alias', 'quick': 800, 'thorough': 8000, 'avg_case_s': 0.05},
         {'engine': 'psetseq', 'variant': 'san', 'profile': 'alias', 'kv': {'inst': 'all'}, 'quick': 1200, 'thorough': 24000, 'avg_case_s': 0.06},
         {'engine': 'prodseq', 'variant': 'san', 'profile': 'value', 'kv': {'inst': 'all'}, 'quick': 900, 'thorough': 6000, 'avg_case_s': 0.15},
         {'engine': 'mipdiff', 'variant': 'san', 'profile': 'alias', 'quick': 4000, 'thorough': 80000, 'avg_case_s': 0.02},
-        {'engine': 'pipbrute', 'variant': 'san', 'profile': 'alias', 'quick': 320, 'thorough': 10000, 'avg_case_s': 0.4},
-        {'engine': 'rowdiff', 'variant': 'san', 'profile': 'alias', 'quick': 1600, 'thorough': 64000, 'avg_case_s': 0.08},
+        {'engine': 'pipbrute', 'variant': 'san', 'profile': 'alias', 'quick': 320, 'thorough': 5000, 'avg_case_s': 0.4},
+        {'engine': 'rowdiff', 'variant': 'san', 'profile': 'alias', 'quick': 1600, 'thorough': 32000, 'avg_case_s': 0.08},
     ],
     'prefixes': ['C13.'],
     'required_counters': ['bystander_checks', 'alias_checks', 'op.m_swap', 'op.assign', 'snapshot_checks', 'c13.checks'],
@@ -49,12 +49,12 @@ CHECKS['C13'] = {
 CHECKS['C15'] = {
     'level': 'exploration',
     'jobs': [
-        {'engine': 'polyseq', 'variant': 'san', 'profile': 'ascii', 'quick': 1200, 'thorough': 40000, 'avg_case_s': 0.15},
+        {'engine': 'polyseq', 'variant': 'san', 'profile': 'ascii', 'quick': 1200, 'thorough': 20000, 'avg_case_s': 0.15},
         {'engine': 'gridseq', 'variant': 'san', 'profile': 'ascii', 'quick': 800, 'thorough': 8000, 'avg_case_s': 0.05},
         {'engine': 'psetseq', 'variant': 'san', 'profile': 'ascii', 'kv': {'inst': 'all'}, 'quick': 1200, 'thorough': 24000, 'avg_case_s': 0.06},
         {'engine': 'prodseq', 'variant': 'san', 'profile': 'value', 'kv': {'inst': 'all'}, 'quick': 900, 'thorough': 6000, 'avg_case_s': 0.15},
         {'engine': 'mipdiff', 'variant': 'san', 'profile': 'ascii', 'quick': 4000, 'thorough': 80000, 'avg_case_s': 0.02},
-        {'engine': 'pipbrute', 'variant': 'san', 'profile': 'ascii', 'quick': 320, 'thorough': 10000, 'avg_case_s': 0.4},
+        {'engine': 'pipbrute', 'variant': 'san', 'profile': 'ascii', 'quick': 320, 'thorough': 5000, 'avg_case_s': 0.4},
         {'engine': 'rowdiff', 'variant': 'san', 'profile': 'default', 'quick': 8000, 'thorough': 200000, 'avg_case_s': 0.006},
     ],
     'prefixes': ['C15.'],
@@ -99,9 +99,9 @@ CHECKS['C18'] = {
 CHECKS['C17'] = {
     'level': 'exploration',
     'jobs': [
-        {'engine': 'wrapseq', 'variant': 'san', 'profile': 'default', 'kv': {'inst': 'all'}, 'quick': 8000, 'thorough': 200000, 'avg_case_s': 0.04},
-        {'engine': 'boxseq', 'variant': 'san', 'profile': 'wrap', 'kv': {'inst': 'all'}, 'quick': 1600, 'thorough': 64000, 'avg_case_s': 0.15},
-        {'engine': 'polyseq', 'variant': 'san', 'profile': 'wrap', 'quick': 800, 'thorough': 30000, 'avg_case_s': 0.15},
+        {'engine': 'wrapseq', 'variant': 'san', 'profile': 'default', 'kv': {'inst': 'all'}, 'quick': 8000, 'thorough': 100000, 'avg_case_s': 0.04},
+        {'engine': 'boxseq', 'variant': 'san', 'profile': 'wrap', 'kv': {'inst': 'all'}, 'quick': 1600, 'thorough': 32000, 'avg_case_s': 0.15},
+        {'engine': 'polyseq', 'variant': 'san', 'profile': 'wrap', 'quick': 800, 'thorough': 15000, 'avg_case_s': 0.15},
     ],
     'prefixes': ['C17.'],
     'required_counters': ['q.contains_integer_point', 'op.drop_some_non_integer_points', 'int_points_checked', 'op.wrap_assign', 'op.contains_integer_point', 'images.checked',
@@ -119,7 +119,7 @@ CHECKS['C17'] = {
 
 CHECKS['C07'] = {
     'level': 'exploration',
-    'jobs': [{'engine': 'pipbrute', 'variant': 'san', 'profile': 'default', 'quick': 1200, 'thorough': 40000, 'avg_case_s': 0.4, 'case_timeout': 120}],
+    'jobs': [{'engine': 'pipbrute', 'variant': 'san', 'profile': 'default', 'quick': 1200, 'thorough': 20000, 'avg_case_s': 0.4, 'case_timeout': 120}],
     'prefixes': ['C07.'],
     'required_counters': ['solves', 'solves.incremental', 'walk.point', 'walk.bottom', 'tree.with_cuts', 'tree.with_splits', 'mode.bigparam', 'op.add_constraint',
                           'op.add_constraints', 'op.add_dims', 'op.add_params', 'runs.cut_all+pivot_max_column', 'ref.bruteforce_crosschecks',
@@ -186,12 +186,12 @@ SHAPE_RULE = ('shapeseq: cases = random histories (4-12 steps) over a pool of 3 
 CHECKS['C03'] = {
     'level': 'exploration',
     'jobs': [
-        {'engine': 'shapeseq', 'variant': 'san', 'profile': 'default', 'kv': {'inst': 'all'}, 'quick': 3600, 'thorough': 180000, 'avg_case_s': 0.05},
-        {'engine': 'shapeseq', 'variant': 'san', 'profile': 'limits', 'kv': {'inst': 'all'}, 'quick': 1200, 'thorough': 36000, 'avg_case_s': 0.05},
-        {'engine': 'boxseq', 'variant': 'san', 'profile': 'ops', 'kv': {'inst': 'all'}, 'quick': 2400, 'thorough': 80000, 'avg_case_s': 0.1},
-        {'engine': 'boxseq', 'variant': 'san', 'profile': 'conv', 'kv': {'inst': 'all'}, 'quick': 800, 'thorough': 32000, 'avg_case_s': 0.1},
+        {'engine': 'shapeseq', 'variant': 'san', 'profile': 'default', 'kv': {'inst': 'all'}, 'quick': 3600, 'thorough': 90000, 'avg_case_s': 0.05},
+        {'engine': 'shapeseq', 'variant': 'san', 'profile': 'limits', 'kv': {'inst': 'all'}, 'quick': 1200, 'thorough': 18000, 'avg_case_s': 0.05},
+        {'engine': 'boxseq', 'variant': 'san', 'profile': 'ops', 'kv': {'inst': 'all'}, 'quick': 2400, 'thorough': 40000, 'avg_case_s': 0.1},
+        {'engine': 'boxseq', 'variant': 'san', 'profile': 'conv', 'kv': {'inst': 'all'}, 'quick': 800, 'thorough': 16000, 'avg_case_s': 0.1},
         # constraint propagation on boxes with independently open/closed finite bounds, >= 3 variables (one branch per sign pattern)
-        {'engine': 'boxseq', 'variant': 'san', 'profile': 'prop', 'kv': {'inst': 'all'}, 'quick': 3600, 'thorough': 72000, 'avg_case_s': 0.08},
+        {'engine': 'boxseq', 'variant': 'san', 'profile': 'prop', 'kv': {'inst': 'all'}, 'quick': 3600, 'thorough': 36000, 'avg_case_s': 0.08},
     ],
     'prefixes': ['C03.'],
     'required_counters': ['sound_checks', 'view_checks', 'pred_checks', 'ctor_checks', 'op.affine_image', 'op.bounded_affine_preimage', 'op.generalized_affine_image_lr',
@@ -337,7 +337,7 @@ CHECKS['C20'] = {
 
 CHECKS['C14'] = {
     'level': 'fault_enumeration',
-    'jobs': [{'engine': 'faultinj', 'variant': 'san', 'profile': 'default', 'quick': 2400, 'thorough': 9600, 'avg_case_s': 2.0, 'case_timeout': 120,
+    'jobs': [{'engine': 'faultinj', 'variant': 'san', 'profile': 'default', 'quick': 2400, 'thorough': 4800, 'avg_case_s': 4.0, 'case_timeout': 300, 'kv': {'maxk': 200},
               'env': {'ASAN_OPTIONS': 'abort_on_error=0:halt_on_error=1:detect_leaks=1:detect_stack_use_after_return=1:strict_string_checks=1:exitcode=66:allocator_may_return_null=1'}}],
     'prefixes': ['C14.'],
     'required_counters': ['inj.alloc', 'alloc.thrown', 'inj.abandon', 'abandon.thrown', 'inj.weight', 'weight.thrown', 'rejects', 'leak_checks', 'table.scenarios', 'table.rejects'],
